@@ -17,10 +17,11 @@ RULE = ("H1 (real quote.c, token822.c, qmail-remote.c addrmangle, commands.c, qm
         "Return-Path, groups, routes, comments, quoted strings, literals, folding, missing commas) x random -a/-h/-H/-n/-f and QMAILINJECT letters and "
         "default host/domain/plus configurations, %(m)d malformed messages; each produced message is injected a second time with -h. Every case also runs "
         "through the compiled Lean model (quote2/parse/unquote/unparse/addrlist/addrmangle/addrparse/inject). Oracles on the implementation's own output: "
-        "unquote(parse(quote2 a))=a with shape word(.word)*@domain; addrparse(commands(MAIL FROM:<addrmangle a>))=a (or refused beyond 899 bytes, or "
+        "unquote(parse(quote2 a))=a with shape word(.word)*@domain and token822_addrlist on these tokens makes exactly ONE callback with the whole address; "
+        "addrparse(commands(MAIL FROM:<addrmangle a>))=a and the same for RCPT TO:<...> (or refused beyond 899 bytes, or "
         "localiphost for a local IP literal); parse(unparse ts)=ts; parse(render cts)=tokens of cts for every legal description (C17_parse_render); "
         "addrlist(ts) and addrlist(ts without comment tokens) return the same value and make the same callbacks (C17_comments_ignored); "
-        "addrlist callbacks = listed mailboxes; envelope recipients = listed mailboxes after the "
+        "addrlist callbacks = listed mailboxes; on a generated grammatical header qmail-inject must exit 0 (Irejected); envelope recipients = listed mailboxes after the "
         "documented rewriting per strategy; no Bcc/Resent-Bcc/Return-Path/Content-Length in the output; second injection yields the same visible recipients. "
         "non-trivial = distinct case whose local part needs quoting (Q), whose string is longer than 3 bytes (P), whose rendering has more than 3 tokens (R), or that carries generated mailboxes (I)")
 
@@ -165,6 +166,19 @@ def main():
         st2, _, _, or2, _ = parse_driver_output(o2)
         c.cov["search_cases"] = int(st2.get("cases", 0))
         return shortest(or2) if or2 else None
+
+    # floors (audit repair): a run that JUDGED too few cases with its oracles must say so as an error, whatever the
+    # number of cases it merely executed (skipped-because-not-legal / not-exit-0 / -n cases do not count)
+    FLOORS = {"Q_header_checked": 500000, "Q_smtp": 500000, "P_reparse_checked": 100000, "P_nocomment_checked": 150000,
+              "P_grammar_checked": 10000, "R_legal_checked": 30000, "I_envelope_checked": 20000, "I_hidden_checked": 30000}
+    if stats and not c.replay and hq and hi:
+        for k, floor in sorted(FLOORS.items()):
+            if int(stats.get(k, 0)) < floor:
+                errors.append("oracle floor not reached: %s = %d < %d (the oracle judged too few cases)" % (k, int(stats.get(k, 0)), floor))
+        rl, rs = int(stats.get("R_legal_checked", 0)), int(stats.get("R_not_legal_skipped", 0))
+        if rl + rs and rl < 0.6 * (rl + rs):
+            errors.append("oracle floor not reached: only %d of %d re-renderings were legal descriptions" % (rl, rl + rs))
+        c.cov["oracle_floors"] = FLOORS
 
     c.cov["evaluations"] = int(stats.get("cases", 0))
     c.cov["distinct_nontrivial"] = int(stats.get("distinct_nontrivial", 0))
